@@ -7,7 +7,7 @@ SPEC = dict(
     technique='runtime monitoring: handle-count model + destructor ledger for RefCount::Ptr, per-thread content models for String/Variant payloads, under TSan (volatile-as-atomic), ASan+LSan and an allocation ledger at native speed',
     rule='ptr-seq: single-threaded histories of 20-300 operations over 6 Ptr<Base> and 3 Ptr<Derived> handles (assign raw/handle/converted handle/null, self-assignment, swap between handles of '
          'different/same payloads, copy-construct, compare); after every operation each handle designates its model payload, payloads are alive iff the model still references them. '
-         'conc: 2-8 threads each own private String/Variant/Ptr handles to 1-3 common payloads and run 200-2500 seeded operations (temporary copies, assignment, in-place modification that must '
+         'conc: 2-8 threads each own private String/Variant (string, list, array and map payloads, a quarter of the containers with 150-340 items)/Xml::Variant/Ptr handles to 1-3 common payloads and run 200-2500 seeded operations (temporary copies, assignment, in-place modification that must '
          'detach, swap, re-pointing, mailbox exchange of fresh copies under a lock, destruction while other threads run); some runs pinned to one CPU to force preemption inside the windows. '
          'duel: 2-4 threads receive the last handles of a fresh payload each round and release them at the same moment through random release paths (500-4000 rounds per case). Oracles: per-thread content model of every private handle (foreign in-place change or premature release shows as a content difference), conservative holder counts checked in the '
          'pointee destructor (released while referenced), destructor-once ledger, created==destroyed after the last handle, TSan/ASan/LSan, allocation ledger (double free, write after free, '
@@ -23,6 +23,6 @@ SPEC = dict(
         job('duel-asan', 'h_refcount', 'duel', variant='asan', sources=SRC, cases={Q: 256, T: 3200}, procs=16, weight=4, timeout={Q: 900, T: 3000}, deadlock=True),
         job('duel-plain', 'h_refcount', 'duel', variant='plain', sources=SRC + ['interpose/ledger.cpp'], cflags=['-DVERIF_LEDGER'], cases={Q: 512, T: 6400}, procs=16, weight=4, timeout={Q: 900, T: 3000}, deadlock=True),
     ],
-    floors={Q: dict(ops=6000000, in_place_modifications=600000, mailbox_exchanges=60000, op_swap=300000, ledger_freed_blocks_poison_verified=300000, duel_rounds=400000, op_assign_raw_of_held=100000, **{'set:duel_release_paths': 6}),
+    floors={Q: dict(ops=6000000, in_place_modifications=600000, mailbox_exchanges=60000, op_swap=300000, ledger_freed_blocks_poison_verified=300000, duel_rounds=400000, op_assign_raw_of_held=100000, variant_array_payloads=1000, variant_map_payloads=1000, variant_list_payloads=1000, **{'set:duel_release_paths': 6}),
             T: dict(ops=40000000, in_place_modifications=4000000, mailbox_exchanges=400000, op_swap=2000000, ledger_freed_blocks_poison_verified=2000000)},
 )
